@@ -743,8 +743,10 @@ def scen_parse_random(g, n):
         # through the parser hook only: judging an insert of a template with hundreds of expansions is far too slow
         for t in deep_templates():
             out.append('parse ' + hx(t))
-        t = b'/r' + b'(/s' * 33 + b')' * 33
-        out += ['new 0', 'insert 0 %s 1' % hx(t), 'search 0 ' + hx(b'/r' + b'/s' * 3), 'delete 0 %s' % hx(t), 'end']
+        for k in [33, 130] + ([257] if n >= 1000 else []):
+            t = b'/r' + b'(/s' * k + b')' * k
+            out += ['new 0', 'insert 0 %s 1' % hx(t), 'search 0 ' + hx(b'/r' + b'/s' * 3), 'search 0 ' + hx(b'/r' + b'/s' * k),
+                    'delete 0 %s' % hx(t), 'end']
     for _ in range(n):
         vocab = r.sample(STATICS, 4) + [b'a', b'b']
         items = g.template_items(vocab)
